@@ -132,6 +132,10 @@ structure PState (V : Type) where
 def subgroupDests {V} (ws : List (DcW V)) : List Str :=
   dedup ((ws.flatMap (fun w => w.fields)).filter (·.isSubgroup) |>.map (·.dest))
 
+/-- some `add_arguments` destination is literally `subgroups` -/
+def subgroupsIsRootDest {V} (ws : List (DcW V)) : Bool :=
+  ws.any (fun w => !w.hasParent && w.dests.contains "subgroups".toList)
+
 /-- the loop at :789-792 (`sub` is `parsed_args.subgroups`) -/
 def moveSubgroups {V} : List Str → Dict V → Dict V → Out (Dict V × Dict V)
   | [], ns, sub => .ok (ns, sub)
@@ -145,7 +149,11 @@ def removeSubgroups {V} (ws : List (DcW V)) (ns : Dict V) : Out (Dict V × Optio
   match subgroupDests ws with
   | [] => .ok (ns, none)                                                 -- :783-784
   | d :: ds =>
+    -- a user attribute called `subgroups` (the code then does item assignment on that value: TypeError for a str /
+    -- None) or an `add_arguments` destination called `subgroups` (the dict is an attribute when :881 `hasattr` runs:
+    -- RuntimeError) — both outside the modelled fragment, where `subgroups` is kept apart from the attributes
     if dhas ns "subgroups".toList then .unmodelled "user attribute named subgroups".toList
+    else if subgroupsIsRootDest ws then .unmodelled "add_arguments destination named subgroups".toList
     else match moveSubgroups (d :: ds) ns [] with                        -- :786-787
       | .ok (ns', sub) => .ok (ns', some sub)
       | .raise e => .raise e
@@ -218,10 +226,11 @@ def fill {V} (A : Alg V) (ps : PState V) (ns : Dict V) (c : CArgs V) : Out (Dict
 
 /-! ### `_instantiate_dataclasses` (parsing.py:794-909) -/
 
-/-- stable insertion into a list sorted by decreasing level -/
+/-- stable insertion into a list sorted by decreasing level: `w` (which precedes every element of the list in the
+    original order) goes before the elements of the same level -/
 def insertDesc {V} (w : DcW V) : List (DcW V) → List (DcW V)
   | [] => [w]
-  | x :: xs => if x.level < w.level then w :: x :: xs else x :: insertDesc w xs
+  | x :: xs => if x.level ≤ w.level then w :: x :: xs else x :: insertDesc w xs
 
 /-- `sorted(wrappers, key=lambda w: w.nesting_level, reverse=True)` (stable) -/
 def sortDesc {V} : List (DcW V) → List (DcW V)
@@ -352,23 +361,43 @@ inductive POut (V : Type)
   | raise (e : Exc)
   | unmodelled (why : Str)
 
-/-- parsing.py:349 + :362-363 (without config files, without `attempt_to_reorder`) -/
-def spParse {V} (A : Alg V) (E : Engine V) (ps : PState V) (userActs spActs : Table) (argv : Argv) : POut V :=
-  match E (userActs ++ spActs) argv with
-  | .exit c => .exit c
-  | .raise => .engineRaise
-  | .ok raw rest =>
-    match postprocess A ps raw with
-    | .ok ns => .ok ns rest
-    | .raise e => .raise e
-    | .unmodelled y => .unmodelled y
+/-- `_preprocessing` (parsing.py:346, 523-554) as far as the accept/reject decision goes: `_resolve_subgroups`
+    (:599-773) runs a pre-parser (`add_help=False`, `allow_abbrev=False`) carrying only the subgroup options over the
+    whole argv BEFORE the main parse; `some code` = that pre-parser exited with `code` -/
+abbrev Pre := Argv → Option Nat
+
+/-- parsing.py:346 + :349 + :362-363 (without config files, without `attempt_to_reorder`) -/
+def spParse {V} (A : Alg V) (pre : Pre) (E : Engine V) (ps : PState V) (userActs spActs : Table) (argv : Argv) : POut V :=
+  match pre argv with
+  | some c => .exit c                                  -- :346 the subgroup pre-parser rejected the command line
+  | none =>
+    match E (userActs ++ spActs) argv with             -- :349
+    | .exit c => .exit c
+    | .raise => .engineRaise
+    | .ok raw rest =>
+      match postprocess A ps raw with                  -- :362
+      | .ok ns => .ok ns rest
+      | .raise e => .raise e
+      | .unmodelled y => .unmodelled y
 
 /-- `argparse.ArgumentParser.parse_args` (CPython 3.12 argparse.py:1871-1877) on top of the overridden
     `parse_known_args`: leftovers are an error (status 2) — raised only AFTER the post-processing ran -/
-def spParseArgs {V} (A : Alg V) (E : Engine V) (ps : PState V) (userActs spActs : Table) (argv : Argv) : POut V :=
-  match spParse A E ps userActs spActs argv with
+def spParseArgs {V} (A : Alg V) (pre : Pre) (E : Engine V) (ps : PState V) (userActs spActs : Table) (argv : Argv) : POut V :=
+  match spParse A pre E ps userActs spActs argv with
   | .ok ns rest => if rest.isEmpty then .ok ns [] else .exit 2
   | o => o
+
+/-! ### `ArgumentParser.set_defaults(self, config_path=None, **kwargs)` (parsing.py:385-438): which keywords reach argparse -/
+
+/-- the keyword names that end up in `self._defaults` (`super().set_defaults(**kwargs)`, :438): a keyword called
+    `config_path` binds the method's own first parameter (a file to READ, :387-388) and the keywords naming a registered
+    dataclass destination are popped into the wrappers (:402-429) -/
+def setDefaultsPassed (wrapperDests : List Str) (kw : List Str) : List Str :=
+  kw.filter (fun k => !(k == "config_path".toList) && !(wrapperDests.contains k))
+
+/-- `set_defaults` tries to read a file (`if config_path: defaults = read_file(config_path)`, :387-388; an exception
+    of `read_file` escapes before anything reaches `_defaults`); `cpTruthy` = the value given for `config_path` is truthy -/
+def setDefaultsReadsFile (kw : List Str) (cpTruthy : Bool) : Bool := kw.contains "config_path".toList && cpTruthy
 
 /-! ### a concrete value algebra (used by the driver and by the examples) -/
 
